@@ -37,6 +37,7 @@ func RegisterAll() {
 	run.Register(&c13{})
 	run.Register(&c14{})
 	run.Register(&c15{})
+	run.Register(&c16{})
 	run.Register(&c20{})
 }
 
